@@ -496,3 +496,15 @@ def rvseq_inputs(seed=0, tier='quick'):
 
 
 GENS.update({'rv2_inputs': rv2_inputs, 'rv1_inputs': rv1_inputs, 'rvseq_inputs': rvseq_inputs})
+
+
+def mul_int_inputs(seed=0, tier='quick'):
+    pool = [fzero, finf, fninf, fnan] + list(small_mpfs(16, (-2, 0, 3))) + [mk(0, (1 << 60) + 1, -60), mk(1, (1 << 53) - 1, 5)]
+    for s in pool:
+        for n in (0, 1, -1, 2, -2, 3, 4, 6, 10, 12, 255, 256, 1 << 40, (1 << 64) - 1, -(1 << 20), 1000):
+            for prec in (1, 2, 5, 53):
+                for rnd in RND5:
+                    yield dict(s=s, n=n, prec=prec, rnd=rnd)
+
+
+GENS['mul_int_inputs'] = mul_int_inputs
